@@ -65,7 +65,7 @@ UnbornActor ==
    inc |-> 0, inst |-> 0, st |-> <<>>, notif |-> "armed", shared |-> FALSE,
    result |-> "none", jh |-> "none", why |-> "none", svc |-> "none",
    kids |-> <<>>, bn |-> 0, uc |-> 0, ty |-> "0",
-   sq |-> [ready |-> 0, next |-> 1, ended |-> FALSE], iscr |-> <<>>, pbseen |-> FALSE,
+   sq |-> [ready |-> 0, next |-> 1, ended |-> FALSE], iscr |-> <<>>, tscr |-> <<>>, pbseen |-> FALSE,
    subs |-> {}, fan |-> {}, bhold |-> {}, bph |-> "none", btgt |-> "none", bseq |-> 0, rtaken |-> 0]
 
 NoArg == [ty |-> "0", nh |-> "none", nh2 |-> "none"]
@@ -185,7 +185,7 @@ Spawn(c, o) ==
                                    !.stream = cf.stream, !.tmo = cf.tmo, !.failto = cf.failto,
                                    !.sscr = cf.sscr, !.pscr = cf.pscr, !.fscr = cf.fscr,
                                    !.inst = hst.ninst + 1, !.ty = cf.ty,
-                                   !.sq = [ready |-> cf.items0, next |-> 1, ended |-> cf.ended0], !.iscr = cf.iscr,
+                                   !.sq = [ready |-> cf.items0, next |-> 1, ended |-> cf.ended0], !.iscr = cf.iscr, !.tscr = IF "tscr" \in DOMAIN cf THEN cf.tscr ELSE <<>>,
                                    !.jh = IF cf.owning THEN "held" ELSE "none"]]
   /\ hnd' = (o.nh :> [kind |-> IF cf.owning THEN "owning" ELSE "addr", a |-> a, owner |-> c, polled |-> FALSE]) @@ hnd
   /\ cli' = Instant(c, o, Mid(c), Last("ok", 0, 0, a))
@@ -1016,7 +1016,8 @@ LoopCanStep(a) ==
 (* Timer tasks (context.rs:218-297): abortable tasks that sleep first, then submit through a  *)
 (* WeakSender.  interval uses the forcing path, interval_with / delayed_send the waiting path. *)
 
-TickPayload(i, k) == [k |-> "task", m |-> <<i, k>>, rs |-> "none", scr |-> <<>>, src |-> "timer"]
+\* (the tick is handled by the actor's handler for that message: script `tscr` of its configuration)
+TickPayload(i, k) == [k |-> "task", m |-> <<i, k>>, rs |-> "none", scr |-> act[tmr[i].a].tscr, src |-> "timer"]
 
 \* first poll: the sleep is created now
 TimerStart(i) ==
